@@ -663,11 +663,21 @@ func checkItemOffsets(w *core.World, r *core.Report, name string) {
 		for _, d := range core.SitesNamed(f, false, "pkg/redis/client.MustDecodeOpt") {
 			dec = d.Instr
 		}
-		inLoopSel := dec != nil && core.PathFrom(f, dec, core.Is(s.Instr), nil) != nil
-		if inLoopSel {
-			r.Check(isStartPlusDecoded(a[1], start), "parseAofCommand/select-offset", s.Pos(), "a SELECT forwarded from the stream must carry startOffset + decoder offset of the same iteration (its own end), found %s", a[1].String())
-		} else {
-			r.Check(core.Unwrap(a[1]) == ssa.Value(start), "parseAofCommand/resume-select-offset", s.Pos(), "the resume SELECT emitted before decoding must carry the start offset, found %s", a[1].String())
+		at := s.Instr
+		if at.Parent() != f {
+			for _, cs := range callSitesOf(w, at.Parent()) {
+				if cs.Parent() == f {
+					at = cs.(ssa.CallInstruction)
+				}
+			}
+		}
+		inLoopSel := dec != nil && core.PathFrom(f, dec, core.Is(at), nil) != nil
+		for _, off := range argValues(a[1], f) {
+			if inLoopSel {
+				r.Check(isStartPlusDecoded(off, start), "parseAofCommand/select-offset", s.Pos(), "a SELECT forwarded from the stream must carry startOffset + decoder offset of the same iteration (its own end), found %s", off.String())
+			} else {
+				r.Check(core.Unwrap(off) == ssa.Value(start), "parseAofCommand/resume-select-offset", s.Pos(), "the resume SELECT emitted before decoding must carry the start offset, found %s", off.String())
+			}
 		}
 	}
 	if n == 0 {
